@@ -325,3 +325,21 @@ Definition ok_resolve (c : @config unit * option (string * gen * bool)) : bool :
   opt_eqb (fun a b => String.eqb (fst (fst a)) (fst (fst b)) && gen_eqb (snd (fst a)) (snd (fst b)) && Bool.eqb (snd a) (snd b))
           (option_map (fun r => (c_package r, c_gen r, c_initialism r)) (resolve_new cfg)) obs.
 Definition mismatches_resolve := mismatches ok_resolve.
+
+(** C07: JSON member values are canonical texts; None = null. observed = the re-encoded object, sorted by key. *)
+From V Require Import Model.Codec.
+Definition jval := option string.
+Definition jval_is_null (v : jval) : bool := match v with None => true | Some _ => false end.
+Definition jval_eqb (a b : jval) : bool := opt_eqb String.eqb a b.
+Fixpoint insert_jk (p : string * jval) (l : list (string * jval)) :=
+  match l with
+  | [] => [p]
+  | q :: r => match String.compare (fst p) (fst q) with Gt => q :: insert_jk p r | _ => p :: l end
+  end.
+Definition sort_jobj (l : list (string * jval)) := fold_right insert_jk [] l.
+Definition jentry_eqb (a b : string * jval) : bool := String.eqb (fst a) (fst b) && jval_eqb (snd a) (snd b).
+
+Definition ok_codec (c : list fdecl * bool * list (string * jval) * list (string * jval)) : bool :=
+  let '(fs, has_addl, o, obs) := c in
+  list_eqb jentry_eqb (sort_jobj (encode jval None fs has_addl (decode jval jval_is_null fs has_addl o))) obs.
+Definition mismatches_codec := mismatches ok_codec.
